@@ -1893,6 +1893,9 @@ coap_send_internal(coap_session_t *session, coap_pdu_t *pdu) {
   coap_queue_t *node = coap_new_node();
   if (!node) {
     coap_log_debug("coap_wait_ack: insufficient memory\n");
+    /* Give back the NSTART slot taken by coap_send_pdu() above */
+    if (session->con_active)
+      session->con_active--;
     goto error;
   }
 
